@@ -8,6 +8,7 @@ import (
 	"go/token"
 	"go/types"
 	"os"
+	"path/filepath"
 	"strings"
 	"sync"
 
@@ -915,7 +916,38 @@ func (x *Run) oblige(st *State, name, kind, goal string, pos token.Pos, note str
 		}
 		ob.Result = r
 		if d := os.Getenv("GOVC_TRACE_OBL"); d != "" && strings.Contains(ob.Name, d) {
-			fmt.Fprintf(os.Stderr, "OBL %s -> %s goal=%.200s trace=%v\n", ob.Name, r.Status, ob.Goal, ob.Trace)
+			pcs := "?"
+			if os.Getenv("GOVC_TRACE_PCSAT") != "" {
+				var b strings.Builder
+				for _, l := range strings.Split(x.d.preamble(), "\n") {
+					if !strings.Contains(l, "(forall ") {
+						b.WriteString(l + "\n")
+					}
+				}
+				for _, c := range ob.pcRef {
+					if pl := pcPlain(c); !strings.Contains(pl, "(forall ") {
+						b.WriteString("(assert " + pl + ")\n")
+					}
+				}
+				pcs = solve(b.String(), 3, false, []string{"z3-new"}).Status
+				if d := os.Getenv("GOVC_TRACE_PCDIR"); d != "" && pcs == "unsat" {
+					var c strings.Builder
+					c.WriteString("(set-option :produce-unsat-cores true)\n")
+					for _, l := range strings.Split(x.d.preamble(), "\n") {
+						if !strings.Contains(l, "(forall ") {
+							c.WriteString(l + "\n")
+						}
+					}
+					for i, cc := range ob.pcRef {
+						if pl := pcPlain(cc); !strings.Contains(pl, "(forall ") {
+							c.WriteString(fmt.Sprintf("(assert (! %s :named a%d))\n", pl, i))
+						}
+					}
+					c.WriteString("(check-sat)\n(get-unsat-core)\n")
+					os.WriteFile(filepath.Join(d, fmt.Sprintf("pc%d.smt2", ob.PathID)), []byte(fmt.Sprintf("; %v\n", ob.Trace)+c.String()), 0o644)
+				}
+			}
+			fmt.Fprintf(os.Stderr, "OBL %s -> %s pc=%s goal=%.120s trace=%v\n", ob.Name, r.Status, pcs, ob.Goal, ob.Trace)
 		}
 	}()
 }
